@@ -895,6 +895,8 @@ type C05Pace struct {
 	Real bool `json:"real,omitempty"`
 	// Via: "" = direct connections; "proxy" / "demux" = the kit.World topologies of that name (TestC16Pace, TestC18Pace)
 	Via string `json:"via,omitempty"`
+	// Ret (TestC03Pace): what the handlers return once both directions are through; nil = success
+	Ret *kit.ErrSpec `json:"ret,omitempty"`
 }
 
 func genC05Pace(t *rapid.T) C05Pace {
@@ -955,6 +957,9 @@ func execC05Pace(t *testing.T, c C05Pace) (v Verdict) {
 				mu.Unlock()
 			}
 			<-sent
+			if c.Ret != nil {
+				return c.Ret.Build()
+			}
 			return nil
 		})
 		topo := "direct"
@@ -1018,6 +1023,12 @@ func execC05Pace(t *testing.T, c C05Pace) (v Verdict) {
 		}
 		if end == nil {
 			v.failf("stream %d: the %s never saw the end of the stream", i, who)
+		} else if who == "caller" && c.Ret != nil && c.Ret.Build() != nil {
+			if msg := oracleStatus(fmt.Sprintf("stream %d", i), *c.Ret, *end, true); msg != "" {
+				v.failf("%s (receiver pauses %v ms)", msg, c.CPause)
+			} else if len(got) != n {
+				v.failf("stream %d: the caller saw the handler's status after %d of %d messages", i, len(got), n)
+			}
 		} else if !end.EOF {
 			v.failf("stream %d: the %s's stream ended with %q, want io.EOF", i, who, end.Raw)
 		} else if len(got) != n {
@@ -1043,7 +1054,16 @@ func execC05Pace(t *testing.T, c C05Pace) (v Verdict) {
 	return
 }
 
-func TestC05Pace(t *testing.T) { checkProp(t, "C05", "pace", genC05Pace, execC05Pace) }
+func TestC05Pace(t *testing.T) {
+	checkProp(t, "C05", "pace", func(t *rapid.T) C05Pace {
+		c := genC05Pace(t)
+		if rapid.IntRange(0, 3).Draw(t, "via_proxy") == 0 {
+			// the per-call order of envelopes also holds for calls relayed by a proxy (one client: see genPaceVia)
+			c.Via, c.Streams = "proxy", 1
+		}
+		return c
+	}, execC05Pace)
+}
 
 // genPaceVia: the pace cases through a proxy or a demux, with pauses of up to three seconds (virtual time), for the
 // properties of those components.
@@ -1056,13 +1076,24 @@ func genPaceVia(via string) func(t *rapid.T) C05Pace {
 			// C16), and with a slow server-side receiver everything the clients send queues up for that one destination
 			c.Streams = 1
 		}
-		long := rapid.SampledFrom([]int{0, 20, 700, 1500, 3000})
+		long := rapid.SampledFrom([]int{0, 20, 700, 1500, 3000, 7000})
 		if rapid.Bool().Draw(t, "long_pauses") {
 			c.HPause = rapid.SliceOfN(long, 1, 3).Draw(t, "h_long")
 			c.CPause = rapid.SliceOfN(long, 1, 3).Draw(t, "c_long")
 		}
 		return c
 	}
+}
+
+// TestC03Pace: the pace cases on direct connections with handlers that end in a drawn status: a caller that takes its
+// time between receives (up to seven seconds) still gets every message and then exactly the handler's status.
+func TestC03Pace(t *testing.T) {
+	checkProp(t, "C03", "pace", func(t *rapid.T) C05Pace {
+		c := genPaceVia("")(t)
+		r := kit.GenErrSpec(t, 20)
+		c.Ret = &r
+		return c
+	}, execC05Pace)
 }
 
 func TestC16Pace(t *testing.T) { checkProp(t, "C16", "pace", genPaceVia("proxy"), execC05Pace) }
